@@ -217,7 +217,17 @@ def in_basis_context(cx, N, Nt, planes=None):
         cx.prove_eq("inside/identity_at_zero", U[0], identity_sop(N), tol=1e-7)
         if Nt > 2:
             cx.prove_eq("inside/semigroup", U[2], numpy.tensordot(U[1], U[1]), tol=1e-7)
+        # the superoperator at one time, obtained inside the context
+        t1 = float(time.data[1])
+        U1 = eso.at(t1)
+        cx.prove_eq("inside/at_is_the_slice", U1.data, U[1], tol=1e-7)
     cx.prove_eq("after/restored", eso._data, U_site, tol=1e-7)
+    cx.prove_eq("after/at_object_in_site_basis", U1.data, U_site[1], tol=1e-7)
+    # ... and obtained outside, then used inside together with its parent
+    V1 = eso.at(t1)
+    with qr.eigenbasis_of(ham):
+        cx.prove_eq("again/at_object_and_parent_agree", V1.data, eso.data[1], tol=1e-7)
+    cx.prove_eq("again/restored", eso._data, U_site, tol=1e-7)
 
 
 @harness("C08", "after_transform",
